@@ -327,6 +327,13 @@ func runC13(c *Ctx) {
 				if !ok || xn.Obj().Name() != "WirePattern" || xn.Obj().Pkg() == nil || xn.Obj().Pkg().Path() != p.Types.Path() {
 					continue
 				}
+				// only a pass over a *list* of patterns is concerned: the asserted value is an element read out of a slice
+				// (a helper that transforms one leaf pattern handed to it leaves the descent to its caller)
+				if u, isU := ta.X.(*ssa.UnOp); !isU {
+					continue
+				} else if _, isIdx := u.X.(*ssa.IndexAddr); !isIdx {
+					continue
+				}
 				if pt, ok := ta.AssertedType.(*types.Pointer); ok {
 					if nt, ok := pt.Elem().(*types.Named); ok {
 						asserted[nt.Obj().Name()] = true
@@ -344,7 +351,7 @@ func runC13(c *Ctx) {
 		c.seen(fnName(fn))
 		c.check(asserted["WireNewSet"], "C13.1", fnName(fn)+":bind-pass-descends-into-inline-sets", L.pos(at.Pos()), "a pass over wire patterns that looks at wire.Bind elements also has a case for inline wire.NewSet elements (their bindings belong to the enclosing set)", fmt.Sprintf("cases %v", sortedKeys(asserted)))
 	}
-	c.floor("C13.1", "passes over wire patterns that look at Bind elements", nBindPasses, 3)
+	c.floor("C13.1", "passes over lists of wire patterns that look at Bind elements", nBindPasses, 1)
 
 	// ---- C13.2 provider provenance
 	nProv := 0
